@@ -52,6 +52,12 @@ def n_cases(tier):
 
 
 def make_case(i, rng, tier):
+    if rng.random() < 0.01:
+        base = rng.choice(["Month", "Month", "Ratio", "Amount", "Num"])
+        lo, hi = (1, 12) if base != "Num" else (1, 2)
+        which = rng.choice(["both", "lo", "hi"])
+        return {"fam": "numsub", "base": base, "lo": lo if which != "hi" else None, "hi": hi if which != "lo" else None, "lax": rng.random() < 0.6,
+                "how": rng.choice(["class", "annotate", "field"]), "inputs": [rng.choice([0, 1, 5, 12, 13, 15, -3, "7", "15", 2, 3, 1.0, 40.0, "0"]) for _ in range(8)]}
     depth = rng.choice([1, 2, 2, 3]) if tier == "quick" else rng.choice([1, 2, 2, 3, 3, 4])
     TS.ENABLE_CONTAINS = True
     TS.ENABLE_REGEX_BEFORE_DECIMAL_PLACES = True
@@ -65,7 +71,63 @@ def make_case(i, rng, tier):
     return {"spec": spec, "opts": opts, "waive": waive, "route": route, "inputs": inputs, "rng": rng}
 
 
+class _Month(int):
+    def label(self):
+        return "M%d" % self
+
+
+class _Ratio(float):
+    pass
+
+
+class _Amount(__import__("decimal").Decimal):
+    pass
+
+
+def run_numsub(case, ctx):
+    """rules whose origin is a USER SUBCLASS of a number type (or an IntEnum) with strict / lax bounds: a result conforms only
+    if it is an instance of that subclass (its methods included) and inside the bounds"""
+    import utype
+    from utype import Rule, Lax, Schema, Field
+    from utype.parser.rule import LogicalType
+    base = {"Month": _Month, "Ratio": _Ratio, "Amount": _Amount, "Num": V.Num}[case["base"]]
+    lo, hi = case["lo"], case["hi"]
+    cd = {}
+    if lo is not None:
+        cd["ge"] = Lax(lo) if case["lax"] else lo
+    if hi is not None:
+        cd["le"] = Lax(hi) if case["lax"] else hi
+    try:
+        T = LogicalType("NS", (base, Rule), dict(cd)) if case["how"] == "class" else Rule.annotate(base, constraints=dict(cd))
+        if case["how"] == "field":
+            S = type(Schema)("NSS", (Schema,), {"__annotations__": {"f": T}, "__module__": "vmon_generated", "__qualname__": "NSS"})
+    except Exception as e:
+        ctx.count("declaration_rejected:" + type(e).__name__)
+        return
+    for x in case["inputs"]:
+        out = run((lambda: S(f=x).f) if case["how"] == "field" else (lambda: T(x)))
+        ctx.count("calls")
+        ctx.count("number_subclass_origin_calls")
+        sig = ("numsub", case["base"], case["how"], case["lax"], lo is not None, hi is not None, type(x).__name__, out.kind)
+        if out.kind not in ("ok", "parse"):
+            ctx.count("escape_left_to_C04")
+            continue
+        if not out.ok:
+            ctx.trivial("rejected")
+            continue
+        v = out.value
+        ok = isinstance(v, base) and (lo is None or v >= lo) and (hi is None or v <= hi)
+        if not ok:
+            ctx.violation("C01/not-instance:" + case["base"] + ("/lax-bound" if case["lax"] else ""),
+                          f"rule over {base.__name__} (a subclass of {base.__mro__[1].__name__}) with {cd}: {x!r} -> {v!r} of type {type(v).__name__}",
+                          {"origin": base.__name__, "constraints": repr(cd), "declared_as": case["how"], "input": repr(x), "output": repr(v), "output_type": type(v).__name__}, sig=sig)
+            return
+        ctx.held(sig)
+
+
 def run_case(case, ctx):
+    if case.get("fam") == "numsub":
+        return run_numsub(case, ctx)
     spec, opts, route = case["spec"], case["opts"], case["route"]
     b = TS.Builder(case["rng"])
     try:
